@@ -2,7 +2,7 @@
    Property theorems only; each is closed by [exact] of a lemma proved in
    Proofs/TreeProofs.v and instantiated at the facts extracted from /repo. *)
 From Coq Require Import List ZArith String Bool Permutation.
-From Cerb Require Import Values PyOps Errors Tree Facts TreeProofs Current.
+From Cerb Require Import Values PyOps Errors Tree Facts Pool Validate TreeProofs PathProofs Current.
 Import ListNotations.
 
 Definition M := f_masks current.
@@ -40,6 +40,19 @@ Theorem C11_content_is_flatten : forall kd errs,
   Forall (nonempty_paths kd) (flatten M errs) -> tflat M kd errs = flatten M errs.
 Proof. exact (tflat_flatten M). Qed.
 Print Assumptions C11_content_is_flatten.
+
+(* ... and the validator's recorded errors DO have non-empty document paths, at any nesting depth (invariant of the
+   whole validation model, PathProofs.validate_paths_extend): the document tree of a validation contains exactly
+   the reported errors, nested child errors included, each retrievable at precisely its document path *)
+Theorem C11_document_tree_of_a_validation : forall fuel x errs p,
+  validate_ctx current fuel x = Ok errs ->
+  Permutation (fetch_errors (build M KDoc errs) p) (filter (atp KDoc p) (flatten M errs)).
+Proof.
+  intros fuel x errs p H. rewrite build_fetch.
+  rewrite (tflat_flatten M KDoc errs); [reflexivity|].
+  exact (recorded_paths_nonempty current fuel x errs H).
+Qed.
+Print Assumptions C11_document_tree_of_a_validation.
 
 (* `definition in node` and node[definition] agree with the node's error list *)
 Theorem C11_contains_agrees : forall n c,
